@@ -237,8 +237,12 @@ func armCalls(c *driver.Ctx) {
 			r := c.Rand()
 			pool := newPool()
 			byType := map[string][]pv{}
+			var iterables []pv
 			for _, p := range pool {
 				byType[p.v.Type()] = append(byType[p.v.Type()], p)
+				if _, ok := p.v.(starlark.Iterable); ok && p.tags != "huge" && p.name != "list-100k" && !strings.Contains(p.name, "deep") {
+					iterables = append(iterables, p)
+				}
 			}
 			for n := 0; n < per; n++ {
 				fn := k.fn
@@ -263,6 +267,11 @@ func armCalls(c *driver.Ctx) {
 				var desc []string
 				for i := 0; i < nargs; i++ {
 					a := pool[r.Intn(len(pool))]
+					if n%2 == 1 && len(iterables) > 0 {
+						// every other call draws its arguments from the iterable values only, so that
+						// pairs of (long, short / lazy / huge) sequences meet often
+						a = iterables[r.Intn(len(iterables))]
+					}
 					args = append(args, a.v)
 					desc = append(desc, a.name+":"+describe(a.v))
 					huge = huge || a.tags == "huge"
@@ -279,10 +288,18 @@ func armCalls(c *driver.Ctx) {
 				}
 				text := fmt.Sprintf("%s recv=%s args=(%s)", k.name, recvDesc, strings.Join(desc, ", "))
 				c.Note("key=C02 crash call %s\n%s", k.name, text)
+				nilAt := ""
 				res := guarded(2*time.Second, func(th *starlark.Thread) error {
-					_, err := starlark.Call(th, fn, args, kwargs)
+					v, err := starlark.Call(th, fn, args, kwargs)
+					if err == nil {
+						// use the result the way a program would: visit every element
+						nilAt = findNil(v, "result", new(int))
+					}
 					return err
 				})
+				if nilAt != "" {
+					c.Violation("C02 nil-value-in-result call "+k.name, "a built-in returned a value containing a nil (not None) element at "+nilAt+": any use of it crashes the host: "+text, map[string]any{"input": text})
+				}
 				c.Eval(1)
 				c.Count("calls_"+res.outcome, 1)
 				c.Cover("callables_reached", k.name)
@@ -298,8 +315,12 @@ func armCalls(c *driver.Ctx) {
 					// never touch them again from this goroutine.
 					pool = newPool()
 					byType = map[string][]pv{}
+					iterables = nil
 					for _, p := range pool {
 						byType[p.v.Type()] = append(byType[p.v.Type()], p)
+						if _, ok := p.v.(starlark.Iterable); ok && p.tags != "huge" && p.name != "list-100k" && !strings.Contains(p.name, "deep") {
+							iterables = append(iterables, p)
+						}
 					}
 				}
 			}
@@ -308,6 +329,44 @@ func armCalls(c *driver.Ctx) {
 			}
 		}
 	}
+}
+
+// findNil walks the containers of v (bounded) and returns the path of the first nil element.
+func findNil(v starlark.Value, path string, budget *int) string {
+	*budget++
+	if *budget > 5000 {
+		return ""
+	}
+	if v == nil {
+		return path
+	}
+	switch v := v.(type) {
+	case starlark.Tuple:
+		for i, e := range v {
+			if p := findNil(e, fmt.Sprintf("%s[%d]", path, i), budget); p != "" {
+				return p
+			}
+		}
+	case *starlark.List:
+		for i := 0; i < v.Len() && i < 200; i++ {
+			if p := findNil(v.Index(i), fmt.Sprintf("%s[%d]", path, i), budget); p != "" {
+				return p
+			}
+		}
+	case *starlark.Dict:
+		for i, kv := range v.Items() {
+			if i >= 200 {
+				break
+			}
+			if p := findNil(kv[0], fmt.Sprintf("%s.key%d", path, i), budget); p != "" {
+				return p
+			}
+			if p := findNil(kv[1], fmt.Sprintf("%s.value%d", path, i), budget); p != "" {
+				return p
+			}
+		}
+	}
+	return ""
 }
 
 func judgeCall(c *driver.Ctx, site, text string, res callResult, huge bool) {
